@@ -465,7 +465,7 @@ def explore(f, start=0, state=None, **kw):
 def deep(st, v, depth=0, seen=None):
     """v with every reference replaced by ('ref*', <value it points to>) (bounded), so that a rule can ask what a borrowed
     argument was computed from"""
-    if depth > 12 or not isinstance(v, tuple):
+    if depth > 30 or not isinstance(v, tuple):
         return v
     if v and v[0] == "ref" and len(v) == 2 and isinstance(v[1], tuple):
         seen = seen or set()
